@@ -1290,6 +1290,7 @@ def c13(ctx):
                 return "observers changed a later result"
             return None
         report(ctx, impl, f1 + f2, m1 + m2, oracle_single, keep, "observer transparency / clone independence")
+    facts_gate(ctx, "C13")     # no type overrides Clone::clone_from or any other provided method the model does not know
     proof_verdict(ctx, ok)
 
 
